@@ -7,6 +7,7 @@ import (
 	"crypto/tls"
 	"crypto/x509"
 	"encoding/json"
+	"encoding/pem"
 	"fmt"
 	"net/http"
 	"net/http/httptest"
@@ -95,8 +96,29 @@ func vfServedKeys(state *RuntimeState, k crypto.PublicKey) (sshca, jwks bool) {
 	return
 }
 
+// vfServedX509CA: does /public/x509ca carry a CA certificate over k?
+func vfServedX509CA(state *RuntimeState, k crypto.PublicKey) bool {
+	rr, p := vfServe(state.publicPathHandler, httptest.NewRequest("GET", publicPath+"x509ca", nil))
+	if p != nil || rr.Code != 200 {
+		return false
+	}
+	rest := rr.Body.Bytes()
+	for {
+		var blk *pem.Block
+		blk, rest = pem.Decode(rest)
+		if blk == nil {
+			return false
+		}
+		if c, err := x509.ParseCertificate(blk.Bytes); err == nil && c.IsCA {
+			if pk, ok := c.PublicKey.(interface{ Equal(crypto.PublicKey) bool }); ok && pk.Equal(k) {
+				return true
+			}
+		}
+	}
+}
+
 // vfSealDigest2 = vfSealDigest + `in=<signer key published?><ed key published?>` (compared with the
-// model) + ` served=<sshca+jwks carry every key that signs: 1|0|->` (judged)
+// model) + ` served=<sshca, jwks and x509ca carry every key that signs: 1|0|->` (judged)
 func vfSealDigest2(status int, state *RuntimeState) string {
 	d := vfSealDigest(status, state)
 	state.Mutex.Lock()
@@ -112,7 +134,7 @@ func vfSealDigest2(status int, state *RuntimeState) string {
 				continue
 			}
 			a, b := vfServedKeys(state, sg.Public())
-			if !a || !b {
+			if !a || !b || !vfServedX509CA(state, sg.Public()) {
 				served = "0"
 			}
 		}
